@@ -245,7 +245,7 @@ type allG struct {
 	Parts []GuardSpec
 }
 
-func (g *allG) String() string                              { return g.Name }
+func (g *allG) String() string                            { return g.Name }
 func (g *allG) Edges(p *Program, fn *ssa.Function) []Edge { return nil }
 
 // ---------------------------------------------------------------------------------------------
